@@ -1,6 +1,7 @@
 package main
 
 import (
+	"fmt"
 	"sync"
 	"time"
 
@@ -136,6 +137,8 @@ type wireNet struct {
 	done      chan struct{}
 	log       func(string, ...interface{})
 	counts    map[string]int
+	ancAsks   []string // per GetAncestor request of a serving P2P module to its chain service: "<answered> <found>"
+	ancRsps   []string // per GetAncestorResponse put on the wire by a serving node: "<status class> <tok>/<no>"
 }
 
 // remoteSide: what a serving node answers from.
@@ -180,11 +183,21 @@ func newWireNet(localCA types.ChainAccessor, npeers int, rs func(i int) *remoteS
 				w.mu.Lock()
 				busy := w.chainBusy
 				w.mu.Unlock()
-				if busy != nil && busy(pid) {
-					return nil, false
-				}
 				// ChainManager.Receive, case *message.GetAncestor (chain/chainservice.go)
 				anc, err := side.findAncestor(g.Hashes)
+				found := "nil"
+				if err == nil && anc != nil {
+					found = fmt.Sprintf("%d/%d", tok(anc.Hash), anc.No)
+				}
+				if busy != nil && busy(pid) {
+					w.mu.Lock()
+					w.ancAsks = append(w.ancAsks, "0 "+found)
+					w.mu.Unlock()
+					return nil, false
+				}
+				w.mu.Lock()
+				w.ancAsks = append(w.ancAsks, "1 "+found)
+				w.mu.Unlock()
 				return message.GetAncestorRsp{Ancestor: anc, Err: err}, true
 			}})
 		l := &wlink{toFar: &pipeRW{}, toNear: &pipeRW{}, farNode: far}
@@ -243,11 +256,16 @@ func (w *wireNet) pass(dir int, l *wlink, m p2pcommon.Message) p2pcommon.Message
 	w.counts["wire:"+m.Subprotocol().String()]++
 	w.mu.Unlock()
 	if f == nil {
-		return m
+		f = func(int, types.PeerID, p2pcommon.SubProtocol, p2pcommon.MessageBody) (bool, p2pcommon.MessageBody) { return false, nil }
 	}
 	body := decodeBody(m.Subprotocol(), m.Payload())
 	if body == nil {
 		return m
+	}
+	if r, ok := body.(*types.GetAncestorResponse); ok && dir == 1 {
+		w.mu.Lock()
+		w.ancRsps = append(w.ancRsps, fmt.Sprintf("%s %d/%d", statusClass(r.Status), tok(r.AncestorHash), r.AncestorNo))
+		w.mu.Unlock()
 	}
 	drop, repl := f(dir, l.farNode.id, m.Subprotocol(), body)
 	if drop {
@@ -317,4 +335,16 @@ func (w *wireNet) pendingRequests() int {
 		n += p2p.VerifC17Pending(l.near)
 	}
 	return n
+}
+
+// serveAncOps: the serving handler's answers seen on the wire, as model lines (called from the harness thread
+// once the session's goroutines are done).
+func (w *wireNet) serveAncOps(emit func(op, out string)) {
+	w.mu.Lock()
+	asks, rsps := w.ancAsks, w.ancRsps
+	w.ancAsks, w.ancRsps = nil, nil
+	w.mu.Unlock()
+	for i := 0; i < len(asks) && i < len(rsps); i++ {
+		emit("serveanc "+asks[i], rsps[i])
+	}
 }
